@@ -1,0 +1,11 @@
+//go:build verif
+
+// Contracts for the verification machinery in /verif (govc). Comment-only.
+
+package modules
+
+// Starting managed work only spawns a goroutine: under the sequential semantics of a
+// single function (A-seq) it has no effect on the caller's state.
+//@ func (*Module).StartLowPriorityMicroTask
+//@   trusted
+//@   pure
